@@ -3,6 +3,7 @@ package c04
 import (
 	"fmt"
 	"os"
+	"sort"
 	"strings"
 	"sync"
 	"testing"
@@ -361,4 +362,83 @@ func TestDevEscape(t *testing.T) {
 	wg.Wait()
 	fmt.Println("cases", st.cases.Get(), "testHalt", st.testHalt.Get(), "testFault", st.testFault.Get(), "blockHalt", st.blockHalt.Get(), "blockFault", st.blockFault.Get(),
 		"blocks", st.blocks.Get(), "execs", st.execs.Get(), "outcomes", len(st.outcomes), time.Since(t0))
+}
+
+// TestDevGhost: layer F alone (C04_DEV=ghost [C04_CASE=<substr of kind:shape>] [C04_VERBOSE=1] [C04_THOROUGH=1]).
+func TestDevGhost(t *testing.T) {
+	if os.Getenv("C04_DEV") != "ghost" {
+		t.Skip()
+	}
+	hw, err := buildWorldHF(false, 0, true)
+	if err != nil {
+		t.Fatal(err)
+	}
+	ew, err := buildEscapeWorld(hw)
+	if err != nil {
+		t.Fatal(err)
+	}
+	g, err := buildGhostWorld(ew)
+	if err != nil {
+		t.Fatal(err)
+	}
+	st := newGStats()
+	filter := os.Getenv("C04_CASE")
+	kinds := gkinds()
+	pl := gPlan(os.Getenv("C04_THOROUGH") != "")
+	var wg sync.WaitGroup
+	var mu sync.Mutex
+	sem := make(chan struct{}, 8)
+	t0 := time.Now()
+	for i := 0; i < len(kinds)*len(gShapes); i++ {
+		k, shape := &kinds[i/len(gShapes)], i%len(gShapes)
+		name := k.Name + ":" + gShapes[shape]
+		if filter != "" && !strings.Contains(name, filter) {
+			continue
+		}
+		wg.Add(1)
+		go func() {
+			defer wg.Done()
+			sem <- struct{}{}
+			defer func() { <-sem }()
+			t1 := time.Now()
+			var fails []gfail
+			var err error
+			if p := chainxTry(func() { fails, err = g.runGroup(k, shape, pl, st, func() bool { return false }) }); p != nil {
+				err = p
+			}
+			mu.Lock()
+			defer mu.Unlock()
+			fmt.Printf("%-40s fails=%d err=%v %v\n", name, len(fails), err, time.Since(t1))
+			for k, f := range fails {
+				if k < 6 {
+					fmt.Printf("    FAIL %s %s %s %.700s\n", f.Mode, f.What, f.Case.name(), fmt.Sprint(f.Detail))
+				}
+			}
+		}()
+	}
+	wg.Wait()
+	fmt.Println("cases", st.cases.Get(), "dropped", st.dropped.Get(), "testHalt", st.testHalt.Get(), "testFault", st.testFault.Get(), "blockHalt", st.blockHalt.Get(), "blockFault", st.blockFault.Get(),
+		"followHalt", st.followHalt.Get(), "followFault", st.followFault.Get(), "blocks", st.blocks.Get(), "execs", st.execs.Get(), "outcomes", len(st.outcomes), "results", st.results.Len(), "pairs", st.pairs.Get(), time.Since(t0))
+	var ks []string
+	for k := range st.sees {
+		ks = append(ks, k)
+	}
+	sort.Strings(ks)
+	fmt.Println("sees:", ks)
+	ks = nil
+	for k := range st.insideSees {
+		ks = append(ks, k)
+	}
+	sort.Strings(ks)
+	fmt.Println("inside executable:", ks)
+	if os.Getenv("C04_VERBOSE") != "" {
+		ks = nil
+		for k := range st.outcomes {
+			ks = append(ks, k)
+		}
+		sort.Strings(ks)
+		for _, k := range ks {
+			fmt.Println("  ", k)
+		}
+	}
 }
